@@ -1,5 +1,16 @@
 /-
   The blocking and the asynchronous message readers (src/read.rs, src/stream.rs).
+
+  The byte source behind the `BufReader` is abstract: the bytes it will deliver and a finite
+  *schedule* of what its next `read` / `poll_read` calls do.  A `chunk k` step delivers
+  between 1 and `k` bytes (never more than are left or than the caller's buffer holds); a
+  `stall` step is `ErrorKind::Interrupted` for the blocking source and `Poll::Pending` for
+  the asynchronous one.  When the schedule is used up the source delivers whatever is asked.
+  `std::io::BufReader` / `futures::io::BufReader` are modelled by their internal buffer:
+  a read with an empty buffer refills it from the source with one inner read (the capacity,
+  10 MiB, exceeds every message, so the inner read is never limited by it), then serves the
+  caller from the buffer.  `read_exact` is the retry loop of std (`default_read_exact`) and
+  the poll loop of futures-util 0.3 (`ReadExact`), written out.
 -/
 import DltVerif.Model.Decode
 
@@ -7,5 +18,242 @@ namespace Dlt
 
 /-- `DEFAULT_MESSAGE_MAX_LEN = STORAGE_HEADER_LENGTH + u16::MAX` -/
 def DEFAULT_MESSAGE_MAX_LEN : Nat := STORAGE_HEADER_LENGTH + 65535
+
+inductive Step where
+  | chunk (k : Nat)
+  | stall
+  deriving DecidableEq, Repr
+
+/-- buffered source: `buf` is what the `BufReader` holds, `data` what the source still has -/
+structure Src where
+  buf : Bytes
+  data : Bytes
+  sched : List Step
+  deriving Repr
+
+def Src.remaining (s : Src) : Nat := s.buf.length + s.data.length
+
+inductive ReadOut where
+  /-- `Ok(n)` with the `n` bytes copied into the caller's buffer (`n = 0`: end of data) -/
+  | bytes (b : Bytes)
+  /-- `Err(Interrupted)` / `Poll::Pending` -/
+  | stall
+  deriving Repr
+
+/-- `BufReader::read(&mut dst[..want])` with `want > 0` -/
+def Src.read (s : Src) (want : Nat) : Src × ReadOut :=
+  if s.buf ≠ [] then
+    ({ s with buf := s.buf.drop want }, .bytes (s.buf.take want))
+  else
+    match s.sched with
+    | [] =>
+      ({ buf := s.data.drop want, data := [], sched := [] }, .bytes (s.data.take want))
+    | .stall :: rest => ({ s with sched := rest }, .stall)
+    | .chunk k :: rest =>
+      let got := s.data.take (max k 1)
+      ({ buf := got.drop want, data := s.data.drop (max k 1), sched := rest },
+       .bytes (got.take want))
+
+/-- progress measure of the read loops -/
+def Src.measure (s : Src) : Nat := s.sched.length + s.buf.length + s.data.length
+
+/-- every read makes progress: a schedule step is used up, or bytes leave the buffer or
+    the source, or the read reports end of data -/
+theorem Src.read_progress (s : Src) (want : Nat) (hw : want ≠ 0) :
+    (s.read want).1.measure < s.measure ∨ ∃ s', s.read want = (s', .bytes []) := by
+  unfold Src.read Src.measure
+  split
+  · rename_i hb
+    left
+    have : 0 < s.buf.length := List.length_pos_iff.mpr hb
+    simp only [List.length_drop]
+    omega
+  · split
+    · rename_i hs
+      by_cases hd : s.data = []
+      · right
+        exact ⟨{ buf := [], data := [], sched := [] }, by simp [hd]⟩
+      · left
+        have : 0 < s.data.length := List.length_pos_iff.mpr hd
+        simp_all only [List.length_drop, List.length_nil]
+        omega
+    · rename_i hs
+      left
+      simp [hs]
+    · rename_i k rest hs
+      left
+      simp only [hs, List.length_drop, List.length_take, List.length_cons]
+      omega
+
+theorem Src.read_stall_sched (s : Src) (want : Nat) (s' : Src) (h : s.read want = (s', .stall)) :
+    s'.sched.length < s.sched.length := by
+  unfold Src.read at h
+  split at h
+  · simp at h
+  · split at h
+    · simp at h
+    · rename_i hs
+      simp only [Prod.mk.injEq] at h
+      obtain ⟨rfl, _⟩ := h
+      simp [hs]
+    · simp at h
+
+theorem Src.read_sched_le (s : Src) (want : Nat) : (s.read want).1.sched.length ≤ s.sched.length := by
+  unfold Src.read
+  split
+  · simp
+  · split <;> simp_all
+
+/-- outcome of `read_exact` -/
+inductive Exact where
+  | ok (b : Bytes)
+  /-- `ErrorKind::UnexpectedEof` -/
+  | eof
+  deriving DecidableEq, Repr
+
+/-- `default_read_exact`: loop over `read`, retrying on `Interrupted`, until the buffer is
+    full or a read returns 0.  `acc` is what has been copied so far. -/
+def readExactLoop (s : Src) (acc : Bytes) (want : Nat) : Src × Exact :=
+  if want = 0 then (s, .ok acc)
+  else
+    match h : s.read want with
+    | (s', .stall) => readExactLoop s' acc want
+    | (s', .bytes b) =>
+      if b = [] then (s', .eof)
+      else readExactLoop s' (acc ++ b) (want - b.length)
+termination_by s.measure
+decreasing_by
+  · have := Src.read_progress s want (by assumption)
+    rw [h] at this
+    rcases this with h1 | ⟨s'', h2⟩
+    · exact h1
+    · simp at h2
+  · have := Src.read_progress s want (by assumption)
+    rw [h] at this
+    rcases this with h1 | ⟨s'', h2⟩
+    · exact h1
+    · simp only [Prod.mk.injEq, ReadOut.bytes.injEq] at h2
+      exact absurd h2.2 (by assumption)
+
+/-- `BufReader::read_exact(&mut dst[..n])` -/
+def readExact (s : Src) (n : Nat) : Src × Exact := readExactLoop s [] n
+
+/-- outcome of `next_message_slice` -/
+inductive SliceRes where
+  /-- `Ok(&buffer[..total_len])` -/
+  | slice (b : Bytes)
+  /-- `Ok(&[])`: no more message could be read -/
+  | empty
+  /-- `Err(ParsingHickup)`: declared length below the standard header length -/
+  | hickup
+  /-- `Err(Unrecoverable)`: I/O error (unexpected end of file) while reading the body -/
+  | ioError
+  | panic
+  deriving DecidableEq, Repr
+
+/-- `next_message_slice` over a given `read_exact` -/
+def nextMessageSliceWith (rx : Src → Nat → Src × Exact) (w : Bool) (s : Src) : Src × SliceRes :=
+  let storageLen := if w then STORAGE_HEADER_LENGTH else 0
+  let headerLen := storageLen + HEADER_MIN_LENGTH
+  match rx s headerLen with
+  | (s1, .eof) => (s1, .empty)
+  | (s1, .ok hdr) =>
+    match parseLength (hdr.drop storageLen) with
+    | .ok messageLen _ =>
+      if messageLen < HEADER_MIN_LENGTH then (s1, .hickup)
+      else
+        let totalLen := storageLen + messageLen
+        if totalLen < headerLen ∨ DEFAULT_MESSAGE_MAX_LEN < totalLen then (s1, .panic)
+        else
+          match rx s1 (totalLen - headerLen) with
+          | (s2, .eof) => (s2, .ioError)
+          | (s2, .ok body) => (s2, .slice (hdr ++ body))
+    | .panic => (s1, .panic)
+    | _ => (s1, .hickup)
+
+/-- one delivered item of `read_message` -/
+inductive Delivered where
+  | parsed (m : ParsedMessage)
+  | error (e : DltError)
+  deriving DecidableEq, Repr
+
+/-- `read_message`: `none` = `Ok(None)` (end of stream) -/
+def readMessageWith (rx : Src → Nat → Src × Exact) (w : Bool) (f : Option ProcessedFilter)
+    (s : Src) : Src × Option Delivered :=
+  match nextMessageSliceWith rx w s with
+  | (s', .empty) => (s', none)
+  | (s', .hickup) => (s', some (.error .hickup))
+  | (s', .ioError) => (s', some (.error .unrecoverable))
+  | (s', .panic) => (s', some (.error .panic))
+  | (s', .slice b) =>
+    match dltMessage b f w with
+    | .ok (pm, _) => (s', some (.parsed pm))
+    | .error e => (s', some (.error e))
+
+/-- the client loop: call `read_message` until it reports end of stream (errors are
+    delivered and reading continues); `fuel` bounds the number of calls -/
+def readAllWith (rx : Src → Nat → Src × Exact) (w : Bool) (f : Option ProcessedFilter) :
+    Nat → Src → List Delivered
+  | 0, _ => []
+  | fuel + 1, s =>
+    match readMessageWith rx w f s with
+    | (_, none) => []
+    | (s', some d) => d :: readAllWith rx w f fuel s'
+
+/-- the blocking reader on the bytes `bs` with source schedule `sched` -/
+def readAll (sched : List Step) (w : Bool) (f : Option ProcessedFilter) (bs : Bytes) :
+    List Delivered :=
+  readAllWith readExact w f (bs.length + 1) { buf := [], data := bs, sched := sched }
+
+-- asynchronous ------------------------------------------------------------------
+
+inductive Poll (α : Type) where
+  | ready (v : α)
+  | pending
+  deriving Repr
+
+/-- state of a `ReadExact` future: what it copied so far and how much it still wants -/
+structure ReadExactFut where
+  acc : Bytes
+  want : Nat
+  deriving Repr
+
+/-- `<ReadExact as Future>::poll`: loop over `poll_read` while the buffer is not full;
+    `Pending` returns to the executor keeping the progress made -/
+def ReadExactFut.poll (fut : ReadExactFut) (s : Src) : Src × ReadExactFut × Poll Exact :=
+  if fut.want = 0 then (s, fut, .ready (.ok fut.acc))
+  else
+    match h : s.read fut.want with
+    | (s', .stall) => (s', fut, .pending)
+    | (s', .bytes b) =>
+      if b = [] then (s', fut, .ready .eof)
+      else ReadExactFut.poll { acc := fut.acc ++ b, want := fut.want - b.length } s'
+termination_by s.measure
+decreasing_by
+  have := Src.read_progress s fut.want (by assumption)
+  rw [h] at this
+  rcases this with h1 | ⟨s'', h2⟩
+  · exact h1
+  · simp only [Prod.mk.injEq, ReadOut.bytes.injEq] at h2
+    exact absurd h2.2 (by assumption)
+
+/-- the executor: poll the future again after every `Pending` (the source woke it).
+    Every `Pending` uses up a schedule step, so `sched.length + 1` polls always suffice
+    (`fuel` exhausted is reported as end of file; Props/C08 shows it never happens). -/
+def blockOnReadExact : Nat → ReadExactFut → Src → Src × Exact
+  | 0, _, s => (s, .eof)
+  | fuel + 1, fut, s =>
+    match fut.poll s with
+    | (s', _, .ready r) => (s', r)
+    | (s', fut', .pending) => blockOnReadExact fuel fut' s'
+
+/-- `AsyncReadExt::read_exact(&mut dst[..n]).await` -/
+def readExactAsync (s : Src) (n : Nat) : Src × Exact :=
+  blockOnReadExact (s.sched.length + 1) { acc := [], want := n } s
+
+/-- the asynchronous reader on the bytes `bs` with source schedule `sched` -/
+def readAllAsync (sched : List Step) (w : Bool) (f : Option ProcessedFilter) (bs : Bytes) :
+    List Delivered :=
+  readAllWith readExactAsync w f (bs.length + 1) { buf := [], data := bs, sched := sched }
 
 end Dlt
